@@ -16,6 +16,7 @@ import ClairModel.Proofs.CpeClean
 import ClairModel.Proofs.CpeFS
 import ClairModel.Proofs.CpeAccept
 import ClairModel.Proofs.CpeURI
+import ClairModel.Proofs.CpeURIAsm
 
 -- every variable of a property statement is bound explicitly: a misspelt name is an error, not a new variable
 set_option autoImplicit false
@@ -406,9 +407,8 @@ theorem unbind_lenient_language_counterexample :
     what is quoted, `%01`/`%02` for the unquoted specials) and unbinding it with
     `(*Value).unbindURI` gives the same set value back, for every value string
     a URI can carry (`CpeSpec.uriValueAux`: lower case, only punctuation,
-    specials, hyphen and period quoted).  The assembly of the whole URI (split
-    at colons, packed edition, trailing components) is not covered by a
-    theorem; the harness checks it on the implementation. -/
+    specials, hyphen and period quoted).  `uri_roundtrip` lifts this to whole
+    names. -/
 theorem uri_value_roundtrip (v : Str) (h : CpeSpec.uriValueAux false v = true) (hv : v ≠ [])
     (h45 : v ≠ [92, 45]) : unbindURIAttr (CpeSpec.transformURI v) = some ⟨.set, v⟩ :=
   unbindURIAttr_transform v h hv h45
@@ -423,6 +423,74 @@ theorem uri_logical_values : unbindURIAttr [] = some ⟨.any, []⟩ ∧ unbindUR
 
 /-- Upper-case letters are not preserved by a URI (the unbinder lower-cases). -/
 theorem uri_uppercase_counterexample : unbindURIAttr [70, 111, 111] = some ⟨.set, [102, 111, 111]⟩ := by
+  decide
+
+/-- `UnbindURI` accepts exactly the strings of `AcceptedURI`: the prefix
+    `cpe:/`, then one to seven components separated by colons (an eighth
+    component is an error; components left out at the end count as empty);
+    each component other than the sixth is empty (ANY), `-` (NA), or, lower-cased,
+    free of the disallowed characters and decoding (`valueURI`) to a value
+    string `validate` accepts; the sixth is such a component or, when it begins
+    with `~`, the packed form: split at its first five tildes, every part after
+    the first tilde is read like a component (the fifth part keeps any further
+    tilde, quoted); the first component decodes to `a`, `o` or `h` unless it
+    is empty or `-`.  Everything else is rejected with an error. -/
+theorem unbindURI_accepts_iff (s : Str) : (unbindURI s).isSome = true ↔ AcceptedURI s :=
+  unbindURI_accepts_iff' s
+
+/-- An eighth component is rejected; so is a first component that is not a part. -/
+example : unbindURI [99, 112, 101, 58, 47, 97, 58, 98, 58, 99, 58, 100, 58, 101, 58, 102, 58, 103, 58, 104] = none := by
+  decide
+example : unbindURI [99, 112, 101, 58, 47, 120, 58, 98] = none := by decide
+
+/-- URI round trip.  The package has no URI binder; binding a valid name with
+    the naming specification's `bind_to_URI` (`CpeSpec.bindURI`: the seven
+    components, the edition packed with sw_edition, target_sw, target_hw and
+    other when one of these is not ANY, trailing colons trimmed) and unbinding
+    the result with `UnbindURI` gives the name back, up to what a URI cannot
+    carry (`normURI`: unset reads as ANY among the seven components, and among
+    the four extended attributes when the edition is packed; they stay unset
+    otherwise) — for every name whose set values a URI can express
+    (`CpeSpec.uriValueAux`: lower case; only punctuation, the special
+    characters, the hyphen and the period are quoted). -/
+theorem uri_roundtrip (w : WFN) (hv : valid w = .ok) (hl : w.length = 11)
+    (hu : ∀ a ∈ w, a.kind = .set → CpeSpec.uriValueAux false a.v = true) :
+    unbindURI (CpeSpec.bindURI (w.map fun a => (a.kind, a.v))) = some (normURI w) :=
+  unbindURI_bindURI w hv hl hu
+
+/-- The same through `Unbind`, which dispatches on the prefix. -/
+theorem uri_roundtrip_unbind (w : WFN) (hv : valid w = .ok) (hl : w.length = 11)
+    (hu : ∀ a ∈ w, a.kind = .set → CpeSpec.uriValueAux false a.v = true) :
+    unbind (CpeSpec.bindURI (w.map fun a => (a.kind, a.v))) = some (normURI w) := by
+  have h := unbindURI_bindURI w hv hl hu
+  have h22 : Gen.Cpe.cpe22Prefix.isPrefixOf (CpeSpec.bindURI (w.map fun a => (a.kind, a.v))) = true := by
+    simp [CpeSpec.bindURI, Gen.Cpe.cpe22Prefix, List.isPrefixOf]
+  simp only [unbind, h22, if_true]
+  exact h
+
+/-- What is read back is again valid. -/
+theorem normURI_valid (w : WFN) (hv : valid w = .ok) (hl : w.length = 11) : valid (normURI w) = .ok :=
+  valid_normURI w hv hl
+
+/-- The hypotheses are satisfiable, packed and not packed:
+    `a:hp:insight:7\.4:-:*:*:online:win2003:x64:*` binds to
+    `cpe:/a:hp:insight:7.4:-:~~online~win2003~x64~`, and `a:foo:*:1\.0` to `cpe:/a:foo::1.0`. -/
+example : CpeSpec.bindURI [(.set, [97]), (.set, [104, 112]), (.set, [105, 110, 115, 105, 103, 104, 116]),
+    (.set, [55, 92, 46, 52]), (.na, []), (.any, []), (.any, []), (.set, [111, 110, 108, 105, 110, 101]),
+    (.set, [119, 105, 110, 50, 48, 48, 51]), (.set, [120, 54, 52]), (.any, [])] =
+    [99, 112, 101, 58, 47, 97, 58, 104, 112, 58, 105, 110, 115, 105, 103, 104, 116, 58, 55, 46, 52, 58, 45, 58, 126, 126,
+      111, 110, 108, 105, 110, 101, 126, 119, 105, 110, 50, 48, 48, 51, 126, 120, 54, 52, 126] := by decide
+example : CpeSpec.bindURI [(.set, [97]), (.set, [102, 111, 111]), (.any, []), (.set, [49, 92, 46, 48]), (.unset, []),
+    (.unset, []), (.unset, []), (.unset, []), (.unset, []), (.unset, []), (.unset, [])] =
+    [99, 112, 101, 58, 47, 97, 58, 102, 111, 111, 58, 58, 49, 46, 48] := by decide
+
+/-- A name with an upper-case letter is outside the theorem: the URI does not
+    preserve case (`Foo` is read back as `foo`). -/
+theorem uri_roundtrip_uppercase_counterexample :
+    unbindURI (CpeSpec.bindURI [(.set, [97]), (.set, [70, 111, 111]), (.any, []), (.any, []), (.any, []), (.any, []),
+      (.any, []), (.unset, []), (.unset, []), (.unset, []), (.unset, [])]) =
+      some [⟨.set, [97]⟩, ⟨.set, [102, 111, 111]⟩, ⟨.any, []⟩, ⟨.any, []⟩, ⟨.any, []⟩, ⟨.any, []⟩, ⟨.any, []⟩,
+        ⟨.unset, []⟩, ⟨.unset, []⟩, ⟨.unset, []⟩, ⟨.unset, []⟩] := by
   decide
 
 /-! ## The CPE condition of rhel's matcher -/
